@@ -202,3 +202,47 @@ class HistoryBFS:
 
 def desc(o):
     return o['op'] + ('(' + ','.join('%s=%s' % (k, v) for k, v in o.items() if k not in ('op', 'vals')) + ')' if len(o) > 1 else '')
+
+
+def generic_bfs(ck, vx, inits, alphabet, emit, step, maxdepth, np=1, deadline=None, batch=150, reps=1, name=None, timeout=None):
+    """Reusable history BFS.  inits: [(name, model)], model needs .canon() and .clone().
+    emit(case, init_name, hist, op, model) -> ctx ; step(model, op, result, ctx) -> (new_model | None, [(sig, detail)])
+    The history is re-emitted by `emit` (it knows how to replay ops).  Returns dict(states, transitions, max_depth, completed_depth)."""
+    import time
+    seen = {}
+    frontier = []
+    for iname, m in inits:
+        seen[(iname, m.canon())] = 1; frontier.append((iname, [], m))
+    states = len(frontier); trans = 0; maxd = 0; completed = 0
+    for depth in range(maxdepth):
+        if deadline and time.time() > deadline:
+            ck.cov['exhaustive'] = False; break
+        jobs = []
+        for iname, hist, m in frontier:
+            for o in alphabet(m):
+                c = Case('%s-np%d-d%d-%d' % (name or ck.pid, np, depth, len(jobs)), np)
+                ctx = emit(c, iname, hist, o, m)
+                jobs.append((iname, hist, m, o, c, ctx))
+        if not jobs: break
+        results = runner.run_cases(vx, [j[4] for j in jobs], batch=batch, timeout=timeout)
+        nxt = []
+        for (iname, hist, m, o, c, ctx), r in zip(jobs, results):
+            trans += 1; ck.cov['evaluations'] += 1
+            text = c.text()
+            label = '%s after [%s]' % (desc(o), ' ; '.join(desc(h) for h in hist))
+            if r.status != 'ok':
+                from .script import first_frame
+                ck.violation((r.status, o['op'], first_frame(r.detail)), text, label + ': ' + r.detail[:800]); continue
+            if r.detail.startswith('FLAKE'): ck.flakes += 1
+            nm, viols = step(m, o, r, ctx)
+            for sig, detail in viols: ck.violation(sig, text, label + ': ' + detail)
+            if viols or nm is None: continue
+            key = (iname, nm.canon())
+            cnt = seen.get(key, 0)
+            if cnt < reps:
+                seen[key] = cnt + 1
+                if cnt == 0: states += 1
+                nxt.append((iname, hist + [o], nm)); maxd = max(maxd, len(hist) + 1)
+            if len(ck.cov['samples']) < 3 and len(hist) >= 2: ck.sample(text[:1500])
+        frontier = nxt; completed = depth + 1
+    return dict(states=states, transitions=trans, max_depth=maxd, completed_depth=completed)
